@@ -74,6 +74,9 @@ namespace svmon
     SVMON_P (cv.inlinable () == (size <= N), "probe.inlinable", "[%s slot %d] inlinable()=%d but size %zu, N %u", tag, slot, int (cv.inlinable ()), size, N);
     SVMON_P (V::inline_capacity () == N, "probe.inline_capacity", "[%s slot %d] inline_capacity() %zu != N %u", tag, slot, size_t (V::inline_capacity ()), N);
     SVMON_P (cv.empty () == (size == 0), "probe.empty", "[%s slot %d] empty()=%d size %zu", tag, slot, int (cv.empty ()), size);
+    // storage that holds (or may hold) elements must be aligned for them, inline buffer and allocator blocks alike
+    SVMON_P (cap == 0 || d == 0 || reinterpret_cast<std::uintptr_t> (d) % alignof (T) == 0, "probe.data-misaligned",
+             "[%s slot %d] data() %p is not aligned to alignof(T) = %zu", tag, slot, (const void *) d, alignof (T));
     bool inside = d != 0 && db >= obj_b && db + N * sizeof (T) <= obj_e;
     if (cv.inlined ())
     {
